@@ -73,7 +73,10 @@ def check_rows(spec, tab, phase, vtol=1e-6, itol=1e-6, pre="", stats=None):
             vo = n["params"]["vo"]
             exp = vo if (S.active_in(n, phase) and vo != 0.0) else 0.0
             rs = abs(n["params"].get("rs", 0.0))
-            if abs(vin - exp) > K * (ATOL + itol * rs * abs(iout)) + 1e-12 * abs(exp):
+            # Vin(source) is reported as Vout + rs*Iin with Vout from one sweep earlier: equal
+            # to the nominal voltage within the voltage and current tolerances
+            if abs(vin - exp) > K * (ATOL + vtol * abs(exp) + itol * rs * abs(iout)) + 1e-12 * abs(
+                    exp):
                 raise Fail(pre + "vin.source", "Source {!r}: Vin {!r}, nominal {!r}".format(
                     name, vin, exp))
             s = 0
